@@ -5,6 +5,10 @@
 //!      checked BEFORE the delta is applied, so later overwrites cannot mask a stale commit.
 //! C15(c): at every `Finality{t}` the validation timestamp exceeds the timestamp of every
 //!      `Rewind{index <= t}` already emitted.
+//!      And, evaluated the moment a rewind call RETURNS (no need for the finality thread to look at
+//!      exactly the wrong instant): no transaction t >= index still carries a successful validation
+//!      that started before the call and whose timestamp exceeds every published rewind bound of
+//!      0..=t - such a validation predates a rewind covering it and is nevertheless eligible.
 //! Reach probes: counts of the rare branches the properties care about.
 
 use crate::norm::{diff_delta, normalise};
@@ -60,6 +64,17 @@ pub struct Monitor {
     pub fallback_start: Option<usize>,
     /// committed txids in event order (parallel and sequential)
     pub commit_order: Vec<usize>,
+    /// event sequence number
+    seq: u64,
+    /// per tx: sequence number of the latest `ValidateStart`
+    validate_start: Vec<u64>,
+    /// per tx: (timestamp, start sequence) of the validation that currently makes it Unconfirmed
+    unconfirmed: Vec<Option<(usize, u64)>>,
+    finalised: Vec<bool>,
+    /// mirrored rewind bounds: the largest `Rewind{index, ts}` published per index
+    lower: Vec<usize>,
+    /// open rewind calls: (task, index, sequence number of the call)
+    open_rewinds: Vec<(usize, usize, u64)>,
 }
 
 thread_local! {
@@ -138,9 +153,52 @@ impl Monitor {
         }
     }
 
+    fn grow(&mut self, i: usize) {
+        if self.unconfirmed.len() <= i {
+            self.unconfirmed.resize(i + 1, None);
+            self.validate_start.resize(i + 1, 0);
+            self.finalised.resize(i + 1, false);
+            self.lower.resize(i + 1, 0);
+        }
+    }
+
     pub fn on_event(&mut self, e: &Event<'_>) {
+        self.seq += 1;
         match e {
+            Event::ValidateStart { txid, .. } => {
+                self.grow(*txid);
+                self.validate_start[*txid] = self.seq;
+            }
+            Event::RewindCall { index } => {
+                self.open_rewinds.push((grevm::verif::rt::me(), *index, self.seq));
+            }
+            Event::RewindReturn { index } => {
+                let me = grevm::verif::rt::me();
+                if let Some(pos) = self.open_rewinds.iter().rposition(|(task, i, _)| *task == me && i == index) {
+                    let (_, _, call_seq) = self.open_rewinds.remove(pos);
+                    let mut bound = self.lower.iter().take(*index).copied().max().unwrap_or(0);
+                    for t in *index..self.unconfirmed.len() {
+                        bound = bound.max(self.lower[t]);
+                        if let Some((ts, start)) = self.unconfirmed[t] &&
+                            !self.finalised[t] &&
+                            start < call_seq &&
+                            ts > bound
+                        {
+                            self.violation(
+                                "C15",
+                                "rewind.stale_validation_still_eligible",
+                                format!(
+                                    "rewind to {index} returned, yet tx {t} is still Unconfirmed through a validation (timestamp {ts}) that started before the rewind call and exceeds every published rewind bound of 0..={t} ({bound}): it is eligible for finality as soon as its prefix is final"
+                                ),
+                            );
+                            break;
+                        }
+                    }
+                }
+            }
             Event::ExecStart { txid, incarnation } => {
+                self.grow(*txid);
+                self.unconfirmed[*txid] = None;
                 self.probes.exec_starts += 1;
                 if *incarnation > 1 {
                     self.probes.reexecutions += 1;
@@ -161,7 +219,9 @@ impl Monitor {
                     self.probes.error_at_head_invalid += 1;
                 }
             }
-            Event::Validate { txid, ok, .. } => {
+            Event::Validate { txid, ok, ts, .. } => {
+                self.grow(*txid);
+                self.unconfirmed[*txid] = ok.then_some((*ts, self.validate_start[*txid]));
                 self.probes.validations += 1;
                 if !*ok {
                     self.probes.validation_conflicts += 1;
@@ -169,10 +229,14 @@ impl Monitor {
                 Self::bump(&mut self.validations_per_tx, *txid);
             }
             Event::Rewind { index, ts, .. } => {
+                self.grow(*index);
+                self.lower[*index] = self.lower[*index].max(*ts);
                 self.probes.rewinds += 1;
                 self.rewinds.push((*index, *ts));
             }
             Event::Finality { txid, unconfirmed_ts, .. } => {
+                self.grow(*txid);
+                self.finalised[*txid] = true;
                 self.probes.finalities += 1;
                 // C15(c): a validation that predates a rewind covering it never reaches finality.
                 let stale = self.rewinds.iter().find(|(index, ts)| index <= txid && unconfirmed_ts <= ts).copied();
@@ -237,6 +301,11 @@ pub fn next_block(expected: Option<Arc<Vec<RefStep>>>) {
         m.next_commit = 0;
         m.rewinds.clear();
         m.fallback_start = None;
+        m.validate_start.clear();
+        m.unconfirmed.clear();
+        m.finalised.clear();
+        m.lower.clear();
+        m.open_rewinds.clear();
     });
 }
 
